@@ -57,6 +57,9 @@ class P(Prop):
                         tgts = [g for g in c.graph.nodes if c.type(g) in gen.MULTI]
                         if tgts:
                             c.graph.add_edge(nm, rng.choice(tgts))
+        # two nodes that need helpers and whose names differ only in punctuation (`d[1]` / `d_1`)
+        wide = [n for n in c.graph.nodes if c.graph.in_degree(n) >= 3 or c.graph.out_degree(n) >= 3]
+        gen.mangling_twins(rng, c, p=0.12, prefer=wide)
         return c
 
     def correspond(self, n):
